@@ -429,6 +429,11 @@ func checkRMW(prop string, rec *rmwRec, log []Commit, out *Outcome) {
 			}
 		case cl.Conflict:
 			// plain conflict: only Modify's create racing another create
+			if call.Kind == "teardown" && exists(func(s resState) bool { return s.Exists && s.Snap.Phase != "running" }) {
+				// through the gRPC leg the Teardown RPC reports a lost teardown race (a phase conflict) as a plain
+				// conflict status; what the class should be is C11's business
+				break
+			}
 			if call.Kind != "modify" || !exists(func(s resState) bool { return !s.Exists }) || !exists(func(s resState) bool { return s.Exists }) {
 				fail("conflict-leaked", "version-conflict-leaked", "plain (version/exists) conflict %v surfaced from a conflict-retrying helper", rec.Err)
 			}
